@@ -627,7 +627,7 @@ class BloomFilterOnDisk(BloomFilter):
                 filepointer.flush()
             self._load(self._filepath, hash_function)
         elif is_valid_file(self._filepath):
-            self._load(self._filepath.name, hash_function)  # need .name for python 3.5
+            self._load(self._filepath, hash_function)
         else:
             raise InitializationError("Insufecient parameters to set up the On Disk Bloom Filter")
 
